@@ -40,10 +40,14 @@ var Check = &vrt.Check{
 		"Write is called with slices of the input in order (empty slices included); Read buffers are non-empty",
 		"the compressed stream is handed to the Reader complete, through bytes.Reader and through plain readers returning 1..k bytes per call",
 	},
-	Plan:          plan,
-	Run:           run,
-	Exhaustive:    func(string) bool { return false },
-	MinNontrivial: 5000,
+	Plan:       plan,
+	Run:        run,
+	Exhaustive: func(string) bool { return false },
+	// "reproduces the input" needs the codec calls to return: a case (normally < 5 s) that does not
+	// return within its watchdog in three isolated attempts is reported as a violation.
+	HangIsViolation: true,
+	HangKey:         func(c vrt.Case) string { return strings.SplitN(c.ID, "-", 2)[0] },
+	MinNontrivial:   5000,
 	Extra: func(tier string) map[string]any {
 		ab, sab, pab, psab := 16, 10, 8, 6
 		if tier == "thorough" {
@@ -62,31 +66,20 @@ const batch = 2000
 
 func plan(seed int64, tier string) []vrt.Case {
 	var cs []vrt.Case
+	ab, sab, pab, psab, nLong, timeout := 16, 10, 8, 6, 150, 240
+	if tier == "thorough" {
+		ab, sab, pab, psab, nLong, timeout = 20, 12, 10, 8, 5800, 600
+	}
 	add := func(id string, p params) {
 		p.Seed = seed
-		cs = append(cs, vrt.Case{ID: id, Params: vrt.MustParams(p), TimeoutS: 900})
-	}
-	ab, sab, pab, psab, nLong := 16, 10, 8, 6, 150
-	if tier == "thorough" {
-		ab, sab, pab, psab, nLong = 20, 12, 10, 8, 5800
+		cs = append(cs, vrt.Case{ID: id, Params: vrt.MustParams(p), TimeoutS: timeout})
 	}
 	rangeID := func(k string, r lzwork.Range) string {
 		return fmt.Sprintf("%s-%s-p%d-n%d-%d", k, strings.ReplaceAll(r.Alpha, " ", "S"), len(r.Prefix), r.Len, r.Lo)
 	}
 	// long inputs first: they are the slowest cases
-	nFixed := len(lzwork.FixedSpecs())
-	total := nFixed + nLong
-	for lo := 0; lo < total; {
-		step := 6
-		if lo >= nFixed {
-			step = 10
-		}
-		hi := min(lo+step, total)
-		if lo < nFixed {
-			hi = min(hi, nFixed)
-		}
-		add(fmt.Sprintf("long-%d-%d", lo, hi), params{Kind: "long", Lo: lo, Hi: hi, N: nLong})
-		lo = hi
+	for _, ch := range lzwork.LongChunks(nLong) {
+		add(fmt.Sprintf("long-%d-%d", ch[0], ch[1]), params{Kind: "long", Lo: ch[0], Hi: ch[1], N: nLong})
 	}
 	for _, r := range lzwork.ShortRanges("ab", ab, batch, "") {
 		add(rangeID("short", r), params{Kind: "short", Range: &r})
@@ -131,7 +124,7 @@ func plan(seed int64, tier string) []vrt.Case {
 			}
 		}
 	}
-	return cs
+	return lzwork.LeadWithOneOfEach(cs, func(c vrt.Case) string { return strings.SplitN(c.ID, "-", 2)[0] })
 }
 
 // prefixBytes is a fixed text of n bytes with some repetition (so that matches into it exist).
@@ -382,7 +375,9 @@ func (c *ctx) runLong(p params) {
 			}
 		}
 	}
-	c.o.Sample = map[string]any{"kind": "long", "inputs": names}
+	c.o.Sample = map[string]any{"kind": "long", "inputs": names, "header_modes": "b2 and raw (inputs > 70 kB: alternating)",
+		"write_partitions": "one Write vs two rotating of " + strings.Join(lzwork.PartitionKinds, ",") + " (+ bytewise up to 70 kB)",
+		"read_plans":       "1-byte reads (up to 70 kB) + two rotating of fixed 1,2,3,7,59,60,61,4096 / prng / prng-small; rotating source readers"}
 }
 
 func run(cs vrt.Case) vrt.Obs {
